@@ -157,6 +157,6 @@ pub fn arb_case(p: TreeParams) -> BoxedStrategy<Case> {
 
 fn run(ctx: &mut Ctx) {
     let cases = ctx.share(ctx.tier.pick(150_000, 3_000_000));
-    let p = ctx.tier.pick(TreeParams::quick(), TreeParams::thorough());
+    let p = ctx.tier.pick(TreeParams::quick(), TreeParams::thorough()).with_big(1);
     run_strategy(ctx, "C12", "chains", cases, arb_case(p), check);
 }
